@@ -780,15 +780,27 @@ impl<'a> Gen<'a> {
             let d = ["uusdc", "uusdt", "udai"][(k % 3) as usize];
             let asset = coin(aa, d);
             let funds = self.farm_fee_funds(&asset);
-            let owner = ["u1", "u2"][(k % 2) as usize];
+            // the farms whose identifiers sort LAST (…_9, …_8) belong to owners who own nothing else
+            let owner = if k == 9 { "u3" } else if k == 8 { "u4" } else { ["u1", "u2"][(k % 2) as usize] };
             // explicit ids mf<tag>_<k> (k = 0..12: "10" sorts before "2"), every fourth farm gets a generated id
             let id = if k % 4 == 3 { "-".to_string() } else { format!("mf{}_{}", tag, k) };
             self.emit(format!("tx {} {} fm createfarm {} {} {} {} {} {}", owner, funds_str(&funds), lp, cur + 1, cur + 4 + k % 3, d, aa, id));
         }
+        // one farm more than the limit allows: must be refused
+        {
+            let asset = coin(3000, "uusdc");
+            let funds = self.farm_fee_funds(&asset);
+            self.emit(format!("tx u1 {} fm createfarm {} {} {} uusdc 3000 mfx{}", funds_str(&funds), lp, cur + 1, cur + 5, tag));
+        }
         let bal = self.run.h.w.balance(u, &lp);
         self.emit(format!("tx {} 1 {} {} fm createpos mfp{} {} -", u, lp, bal / 9 + 1, tag, DAY));
+        // a second position that leaves through the emergency exit while all these farms are active
+        let bal2 = self.run.h.w.balance(u, &lp);
+        let dur2 = DAY * (30 + self.r.below(300));
+        self.emit(format!("tx {} 1 {} {} fm createpos mfq{} {} -", u, lp, bal2 / 7 + 1, tag, dur2));
         self.emit(format!("advance {}", 2 * DAY * 1_000_000_000));
         self.emit(format!("tx {} 0 fm claim -", u));
+        self.emit(format!("tx {} 0 fm withdrawpos u-mfq{} true", u, tag));
         self.emit(format!("advance {}", DAY * 1_000_000_000));
         self.emit(format!("tx {} 0 fm claim -", u));
     }
@@ -815,7 +827,13 @@ impl<'a> Gen<'a> {
         let now = self.run.h.w.now_ns();
         if target > now { self.emit(format!("advance {}", target - now)); }
         let lp = self.run.h.w.cd(&f.lp_denom);
-        match self.r.below(3) {
+        match self.r.below(4) {
+            3 => {
+                // somebody who is neither the farm's owner nor the contract owner tries to close it around its expiry
+                let owner = self.run.h.w.n(f.owner.as_str());
+                let stranger = ["u1", "u2", "u3", "u4", "out"].into_iter().find(|x| *x != owner).unwrap();
+                self.emit(format!("tx {} 0 fm closefarm {}", stranger, f.identifier));
+            }
             0 | 1 => {
                 let cur = self.cur_epoch();
                 let aa = 2000 + self.r.below(100_000) as u128;
